@@ -14,7 +14,9 @@ import vlib
 
 TRUSTED = [
     "Coq 8.16.1 kernel + vm_compute (witness evaluation, one small sweep for mono_closed; the lowering theorems are unbounded inductions)",
-    "tools/extractors/c17.py transcribes MAX_MONO_ROUNDS from air/src/mono.rs",
+    "tools/extractors/c17.py recomputes MAX_MONO_ROUNDS and 24 structural flags (match arms under which substitute_type / "
+    "unify_param recurse, order of the name checks in lower_type_from_infer, guard conditions of finalize / noop, fields saved by "
+    "lower_function, ...) from the current source text; theorem C17_source_structure_assumed_by_the_models pins them",
     "Model/AirLower.v is a hand model of air/src/lower.rs restricted to what decides block structure "
     "(block-id allocation, seal/pending/fixup/alias/finalize, statement emission, name table, lower_function "
     "save/restore); tied on every run by hx_air (canonical block lists must be equal)",
@@ -31,6 +33,8 @@ TRUSTED = [
 
 IMPORT_SK = "From Aelys Require Import Model.AirLower.\nLocal Open Scope N_scope."
 IMPORT_MO = "From Aelys Require Import Model.AirLower Model.Mono.\nLocal Open Scope N_scope."
+IMPORT_MC = "From Aelys Require Import Model.AirLower Model.Mono Proofs.MonoClosed.\nLocal Open Scope N_scope."
+IMPORT_LO = "From Aelys Require Import Model.AirLower Model.AirLocals.\nLocal Open Scope N_scope."
 IMPORT_TY = "From Aelys Require Import Model.AirLower Model.Mono Model.AirTypes.\nLocal Open Scope N_scope."
 
 REFUTED = ["mono_closed (C17_mono_closed_refuted, C17_generic_struct_field_refuted: generic structs are never "
@@ -87,10 +91,10 @@ def run(ctx):
         "programs are drawn from the generator described in input_distribution (break/continue only inside a loop of the same "
         "function, because the rest of the toolchain rejects the others; the lowering theorem itself needs no such guard)",
     ]
-    proved = ctx.prove("C17", extracted=["MonoConsts"])
+    proved = ctx.prove("C17", extracted=["MonoConsts", "LowerFlags"])
     if ctx.tier == "thorough" and proved:
         ctx.coqchk("C17")
-    ok, out = vlib.coq_make(["Base/CaseCheck.vo", "Model/AirLower.vo", "Model/Mono.vo", "Model/AirTypes.vo"])
+    ok, out = vlib.coq_make(["Base/CaseCheck.vo", "Model/AirLower.vo", "Model/Mono.vo", "Model/AirTypes.vo", "Model/AirLocals.vo", "Proofs/MonoClosed.vo"])
     if not ok:
         ctx.broken.append("coq: model files for the C17 tie do not build")
         ctx.log(out[-2000:])
@@ -109,7 +113,7 @@ def run(ctx):
             return
         out = run_harness(ctx, hx, ["--count", "0", "--source-escaped", src.replace("\\", "\\\\").replace("\n", "\\n").replace("\t", "\\t")])
     else:
-        n = 600 if ctx.tier == "quick" else 3000
+        n = 400 if ctx.tier == "quick" else 3000
         out = run_harness(ctx, hx, ["--seed", str(ctx.seed), "--count", str(n),
                                     "--corpus", os.path.join(vlib.VERIF, "corpus", "C17")])
     if out is None:
@@ -118,7 +122,7 @@ def run(ctx):
 
 
 def analyse(ctx, out):
-    src, sk, mo, vs, stats, panics, rej, tyc = {}, [], [], [], {}, [], 0, []
+    src, sk, mo, vs, stats, panics, rej, tyc, loc = {}, [], [], [], {}, [], 0, [], []
     for line in out.splitlines():
         f = line.split("\t")
         if f[0] == "SRC":
@@ -129,6 +133,8 @@ def analyse(ctx, out):
             mo.append((f[1], f[2], f[3], f[4]))
         elif f[0] == "TY":
             tyc.append((f[1], f[2], f[3], f[4]))
+        elif f[0] == "LO":
+            loc.append((f[1], f[2], f[3], f[4]))
         elif f[0] == "V":
             vs.append(dict(case=f[1], mode=f[2], stage=f[3], fn=int(f[4]), name=f[5], kind=f[6], detail=f[7] if len(f) > 7 else ""))
         elif f[0] == "STAT":
@@ -160,6 +166,10 @@ def analyse(ctx, out):
         ctx.cov["skeleton_disagreements"] = [
             {"case": c, "mode": m, "source": unesc(src.get(c, "")), "implementation": o, "model": r}
             for (c, m, _, o), r in zip(bad, mres)]
+        d0 = ctx.cov["skeleton_disagreements"][0]
+        ctx.violation("tie:skeleton", "block structure of lower() differs from the proved model on this input (the theorems about the model no longer describe the code)",
+                      {"source": d0["source"], "case": d0["case"], "mode": d0["mode"], "implementation": d0["implementation"],
+                       "model": d0["model"], "oracle": "contract tie"})
         sk_bad = {(sk[i][0], sk[i][1]) for i in fails}
     # ---- (c) mono contract tie
     mo_cases = [(f"(({q}) : mprog)", f"(({o}) : mono_obs_t)") for (_, _, q, o) in mo]
@@ -174,6 +184,27 @@ def analyse(ctx, out):
         ctx.cov["mono_disagreements"] = [
             {"case": c, "mode": m, "source": unesc(src.get(c, "")), "implementation": o, "model": r}
             for (c, m, _, o), r in zip(bad, mres)]
+        d0 = ctx.cov["mono_disagreements"][0]
+        ctx.violation("tie:mono", "result of monomorphize() differs from the proved model on this input (the theorems about the model no longer describe the code)",
+                      {"source": d0["source"], "case": d0["case"], "mode": d0["mode"], "implementation": d0["implementation"],
+                       "model": d0["model"], "oracle": "contract tie"})
+
+    # ---- the guarded theorem against reality: wherever the guard of C17_mono_closed_outside_open_classes
+    # holds for the program the real lower() produced, the validator must find nothing after mono
+    post_bad = {(v["case"], v["mode"]) for v in vs if v["stage"] == "post"}
+    g_cases = [(f"(({q}) : mprog)", "true" if (c, m) in post_bad else "false") for (c, m, q, _) in mo]
+    gfails, err = vlib.coq_eval_cases("c17g", IMPORT_MC, "mono_guard", "(fun g v => implb g (negb v))", g_cases,
+                                      shard=min(150, max(40, len(g_cases) // 16 + 1)), timeout=1500)
+    if err:
+        ctx.broken.append("C17/mono guard: model evaluation failed")
+        ctx.log(err[-3000:])
+    if gfails:
+        ctx.broken.append(f"C17/mono guard: on {len(gfails)} programs the guard of the mono_closed theorem holds but the validator "
+                          "reports a finding after monomorphisation (model, translation or validator wrong)")
+        ctx.cov["guard_contradictions"] = [{"case": mo[i][0], "mode": mo[i][1], "source": unesc(src.get(mo[i][0], ""))} for i in gfails[:3]]
+    nog, err2 = vlib.coq_eval_cases("c17g2", IMPORT_MC, "mono_guard", "(fun g (_ : bool) => g)", g_cases,
+                                    shard=min(150, max(40, len(g_cases) // 16 + 1)), timeout=1500)
+    ctx.cov["mono_theorem_guard_holds_on"] = f"{len(g_cases) - len(nog)} of {len(g_cases)} generated lowerings"
 
     # ---- (d) type-name lowering contract tie (signatures of the top-level functions)
     ty_cases = [(f"(({q}) : list titem)", f"(({o}) : list (list ty))") for (_, _, q, o) in tyc]
@@ -189,6 +220,29 @@ def analyse(ctx, out):
         ctx.cov["type_disagreements"] = [
             {"case": c, "mode": m, "source": unesc(src.get(c, "")), "implementation": o, "model": r}
             for (c, m, _, o), r in zip(bad, mres)]
+        d0 = ctx.cov["type_disagreements"][0]
+        ctx.violation("tie:types", "lowered signature types differ from the proved model on this input (the theorems about the model no longer describe the code)",
+                      {"source": d0["source"], "case": d0["case"], "mode": d0["mode"], "implementation": d0["implementation"],
+                       "model": d0["model"], "oracle": "contract tie"})
+
+    # ---- (e) locals contract tie: per function, how many ids are parameters / declared / mentioned
+    lo_cases = [(q, f"(({o}) : list (list N))") for (_, _, q, o) in loc]
+    lfails, err = vlib.coq_eval_cases("c17lo", IMPORT_LO, "lobs", "nlist2_eqb", lo_cases,
+                                      shard=min(150, max(40, len(lo_cases) // 16 + 1)), timeout=1500)
+    if err:
+        ctx.broken.append("correspondence C17/locals: model evaluation failed")
+        ctx.log(err[-3000:])
+    if lfails:
+        ctx.broken.append(f"correspondence C17/locals: model and lower() differ on {len(lfails)} of {len(lo_cases)} programs")
+        bad = [loc[i] for i in lfails[:3]]
+        mres, _ = vlib.coq_eval_terms("c17lo", IMPORT_LO, [f"lobs ({q})" for (_, _, q, _) in bad])
+        ctx.cov["locals_disagreements"] = [
+            {"case": c, "mode": m, "source": unesc(src.get(c, "")), "implementation": o, "model": r}
+            for (c, m, _, o), r in zip(bad, mres)]
+        d0 = ctx.cov["locals_disagreements"][0]
+        ctx.violation("tie:locals", "parameter / declared / mentioned local counts differ from the proved model on this input (the theorems about the model no longer describe the code)",
+                      {"source": d0["source"], "case": d0["case"], "mode": d0["mode"], "implementation": d0["implementation"],
+                       "model": d0["model"], "oracle": "contract tie"})
 
     # ---- (a) direct oracle: classify the validator's findings by root cause
     by_sig = {}
@@ -225,7 +279,7 @@ def analyse(ctx, out):
         for fn in re.findall(r"\[\[[^\]]*\](?:;\[[^\]]*\])+\]", o):
             shapes.add(hashlib.sha1(fn.encode()).hexdigest())
     mono_shapes = {hashlib.sha1(o.encode()).hexdigest() for (_, _, _, o) in mo if not o.startswith("([],")}
-    ctx.cov["evaluations"] = len(sk_cases) + len(mo_cases) + len(ty_cases)
+    ctx.cov["evaluations"] = len(sk_cases) + len(mo_cases) + len(ty_cases) + len(lo_cases)
     ctx.cov["distinct_nontrivial"] = len(shapes) + len(mono_shapes)
     ctx.cov["distinct_function_cfgs_with_2plus_blocks"] = len(shapes)
     ctx.cov["distinct_mono_outcomes_with_instances"] = len(mono_shapes)
